@@ -38,6 +38,7 @@ type Conn struct {
 	password    string
 	hasPassword bool
 	uuid        uuid.UUID
+	closeMutex  sync.Mutex
 }
 
 func newConnWith(conn net.Conn, tlsState *tls.ConnectionState) *Conn {
@@ -54,11 +55,14 @@ func newConnWith(conn net.Conn, tlsState *tls.ConnectionState) *Conn {
 		password:    "",
 		hasPassword: false,
 		uuid:        uuid.New(),
+		closeMutex:  sync.Mutex{},
 	}
 }
 
 // Close closes the connection.
 func (conn *Conn) Close() error {
+	conn.closeMutex.Lock()
+	defer conn.closeMutex.Unlock()
 	if conn.isClosed {
 		return nil
 	}
